@@ -324,6 +324,9 @@ def _join_all(tys):
 def coerce(v, ty):
     """convert value v to type ty (lossless widening)"""
     if v.ty == ty: return v
+    if isinstance(ty, TAny) and v.ty is TStr and z3.is_string_value(z3.simplify(v.t)):
+        # a string literal where an opaque (TAny) value is expected denotes one fixed element of that type
+        return V(ty, z3.Const('strlit_%s_%s' % (ty.name, z3.simplify(v.t).as_string().encode().hex()), sort_of(ty)))
     if isinstance(ty, TOpt):
         if v.ty is TNone:
             facts = []
